@@ -15,18 +15,24 @@ import (
 
 type Layout struct {
 	Name           string
-	VideoTS        uint32 // media timescale of the video track
-	FrameDur       uint32 // duration of every video frame in VideoTS
-	SegFrames      []int  // video frames per segment
-	AudioSegs      []int  // audio frames (1024 @ 48 kHz) per audio segment; nil = no audio
-	VideoTrexDur   uint32 // if != 0: default sample duration in the video init segment's trex (the segments' tfhd says FrameDur, trun has no durations)
-	ExtraOwnAS     bool   // the extra video representation gets an AdaptationSet (and SegmentTimeline) of its own
-	AudioTrexDur   uint32 // if != 0: default sample duration in the audio init segment's trex (the segments' tfhd says 1024)
-	UseTime        bool   // SegmentTimeline + $Time$ templates instead of $Number$ + duration
-	StartNr        int    // startNumber of $Number$ templates
-	Text           bool   // add an stpp track (1 sample per video segment, timescale 1000) -- needs whole-ms segments
-	ExtraVideo     string // id of a second video representation (same content), "" = none
-	ExtraSegFrames []int  // frames per segment of the second video representation (nil = as the first)
+	VideoTS        uint32   // media timescale of the video track
+	FrameDur       uint32   // duration of every video frame in VideoTS
+	SegFrames      []int    // video frames per segment
+	AudioSegs      []int    // audio frames (1024 @ 48 kHz) per audio segment; nil = no audio
+	FrameDurs      []uint32 // if set: video frame durations cycle through these values (variable frame rate) instead of FrameDur
+	Thumbs         int      // number of thumbnail images per loop (0 = none); their duration is loop/Thumbs, whatever the video segments are
+	ImageBeforeTxt bool     // MPD order audio, video, image, text (instead of video, audio, text, image)
+	TextBothSizes  bool     // subtitle segments carry the sample size both as tfhd default_sample_size and in the trun
+	TextLastShort  uint32   // the last subtitle segment is this many ms shorter than the video segment it goes with
+	LastTfdtJump   uint64   // the last video segment's tfdt is this many ticks later than the end of the one before (a gap the sample durations do not show)
+	VideoTrexDur   uint32   // if != 0: default sample duration in the video init segment's trex (the segments' tfhd says FrameDur, trun has no durations)
+	ExtraOwnAS     bool     // the extra video representation gets an AdaptationSet (and SegmentTimeline) of its own
+	AudioTrexDur   uint32   // if != 0: default sample duration in the audio init segment's trex (the segments' tfhd says 1024)
+	UseTime        bool     // SegmentTimeline + $Time$ templates instead of $Number$ + duration
+	StartNr        int      // startNumber of $Number$ templates
+	Text           bool     // add an stpp track (1 sample per video segment, timescale 1000) -- needs whole-ms segments
+	ExtraVideo     string   // id of a second video representation (same content), "" = none
+	ExtraSegFrames []int    // frames per segment of the second video representation (nil = as the first)
 	VideoID        string
 	TimeOffset     uint64 // first video tfdt (media time of the first VoD segment)
 	Shift          []int  // Shift[i]: the boundary after video segment i is moved by this many ticks (last frame longer, next first frame shorter)
@@ -86,6 +92,11 @@ func writeSeg(dst string, seqNr, trackID uint32, samples []mp4.FullSample) error
 
 // writeSegOpt: with optimize, common sample values move into the tfhd defaults (as packagers do).
 func writeSegOpt(dst string, seqNr, trackID uint32, samples []mp4.FullSample, optimize bool) error {
+	return writeSegX(dst, seqNr, trackID, samples, optimize, false)
+}
+
+// writeSegX: bothSizes also writes the (first) sample size as tfhd default_sample_size while the trun keeps its sizes.
+func writeSegX(dst string, seqNr, trackID uint32, samples []mp4.FullSample, optimize, bothSizes bool) error {
 	seg := mp4.NewMediaSegment()
 	frag, err := mp4.CreateFragment(seqNr, trackID)
 	if err != nil {
@@ -98,6 +109,10 @@ func writeSegOpt(dst string, seqNr, trackID uint32, samples []mp4.FullSample, op
 	seg.AddFragment(frag)
 	for _, s := range samples {
 		frag.AddFullSample(s)
+	}
+	if bothSizes && len(samples) > 0 {
+		frag.Moof.Traf.Tfhd.DefaultSampleSize = samples[0].Size
+		frag.Moof.Traf.Tfhd.Flags |= 0x000010
 	}
 	var buf bytes.Buffer
 	if err := seg.Encode(&buf); err != nil {
@@ -142,11 +157,17 @@ func Generate(root, src string, l Layout) error {
 		var mySegs []segT
 		for si, nf := range segFrames {
 			var ss []mp4.FullSample
+			if si == len(segFrames)-1 && si > 0 {
+				t += l.LastTfdtJump
+			}
 			start := t
 			for j := 0; j < nf; j++ {
 				s := video.samples[k%len(video.samples)]
 				k++
 				s.Dur = l.FrameDur
+				if len(l.FrameDurs) > 0 {
+					s.Dur = l.FrameDurs[j%len(l.FrameDurs)]
+				}
 				if j == nf-1 && si < len(l.Shift) {
 					s.Dur = uint32(int(l.FrameDur) + l.Shift[si])
 				}
@@ -229,14 +250,31 @@ func Generate(root, src string, l Layout) error {
 			s := text.samples[si%len(text.samples)]
 			s.DecodeTime = vs.t * 1000 / uint64(l.VideoTS)
 			s.Dur = uint32(vs.d * 1000 / uint64(l.VideoTS))
+			if si == len(vsegs)-1 && l.TextLastShort > 0 {
+				s.Dur -= l.TextLastShort
+			}
 			name := fmt.Sprintf("%d.m4s", l.StartNr+si)
 			if l.UseTime {
 				name = fmt.Sprintf("%d.m4s", s.DecodeTime)
 			}
-			if err := writeSeg(filepath.Join(dir, "T1", name), uint32(l.StartNr+si), text.trackID(), []mp4.FullSample{s}); err != nil {
+			if err := writeSegX(filepath.Join(dir, "T1", name), uint32(l.StartNr+si), text.trackID(), []mp4.FullSample{s}, false, l.TextBothSizes); err != nil {
 				return err
 			}
 			tsegs = append(tsegs, segT{s.DecodeTime, uint64(s.Dur)})
+		}
+	}
+	if l.Thumbs > 0 {
+		if err := os.MkdirAll(filepath.Join(dir, "thumbs"), 0o755); err != nil {
+			return err
+		}
+		for i := 0; i < l.Thumbs; i++ {
+			img, err := os.ReadFile(filepath.Join(src, "thumbs", fmt.Sprintf("%d.jpg", i%4+1)))
+			if err != nil {
+				return fmt.Errorf("thumbnail source: %w", err)
+			}
+			if err := os.WriteFile(filepath.Join(dir, "thumbs", fmt.Sprintf("%d.jpg", l.StartNr+i)), img, 0o644); err != nil {
+				return err
+			}
 		}
 	}
 	// ---- MPD
@@ -285,13 +323,27 @@ func Generate(root, src string, l Layout) error {
 		fmt.Fprintf(&b, `  <AdaptationSet contentType="video" id="4" mimeType="video/mp4" segmentAlignment="true" startWithSAP="1">%s<Representation id="%s" codecs="avc1.64001e" bandwidth="600000" width="640" height="360" frameRate="30"/></AdaptationSet>
 `, tmpl(l.VideoTS, esegs), l.ExtraVideo)
 	}
+	audioAS, textAS, imageAS := "", "", ""
 	if asegs != nil {
-		fmt.Fprintf(&b, `  <AdaptationSet contentType="audio" id="2" mimeType="audio/mp4" lang="en" segmentAlignment="true" startWithSAP="1">%s<Representation id="A48" codecs="mp4a.40.2" bandwidth="48000" audioSamplingRate="48000"/></AdaptationSet>
+		audioAS = fmt.Sprintf(`  <AdaptationSet contentType="audio" id="2" mimeType="audio/mp4" lang="en" segmentAlignment="true" startWithSAP="1">%s<Representation id="A48" codecs="mp4a.40.2" bandwidth="48000" audioSamplingRate="48000"/></AdaptationSet>
 `, tmpl(48000, asegs))
 	}
 	if tsegs != nil {
-		fmt.Fprintf(&b, `  <AdaptationSet contentType="text" id="3" mimeType="application/mp4" lang="sv" segmentAlignment="true" startWithSAP="1" codecs="stpp">%s<Representation id="T1" bandwidth="8000"/></AdaptationSet>
+		textAS = fmt.Sprintf(`  <AdaptationSet contentType="text" id="3" mimeType="application/mp4" lang="sv" segmentAlignment="true" startWithSAP="1" codecs="stpp">%s<Representation id="T1" bandwidth="8000"/></AdaptationSet>
 `, tmpl(1000, tsegs))
+	}
+	if l.Thumbs > 0 {
+		imageAS = fmt.Sprintf(`  <AdaptationSet mimeType="image/jpeg" contentType="image"><SegmentTemplate media="$RepresentationID$/$Number$.jpg" timescale="%d" duration="%d" startNumber="%d"/><Representation bandwidth="10000" id="thumbs" width="160" height="90"><EssentialProperty schemeIdUri="http://dashif.org/guidelines/thumbnail_tile" value="1x1"/></Representation></AdaptationSet>
+`, l.VideoTS, total/uint64(l.Thumbs), l.StartNr)
+	}
+	if l.ImageBeforeTxt {
+		// audio, video, image, text: rebuild the document in that order
+		doc := b.String()
+		k := strings.Index(doc, `  <AdaptationSet contentType="video"`)
+		b.Reset()
+		b.WriteString(doc[:k] + audioAS + doc[k:] + imageAS + textAS)
+	} else {
+		b.WriteString(audioAS + textAS + imageAS)
 	}
 	b.WriteString(" </Period>\n</MPD>\n")
 	return os.WriteFile(filepath.Join(dir, "Manifest.mpd"), []byte(b.String()), 0o644)
@@ -340,6 +392,18 @@ func ExtraLayouts() []Layout {
 		// the video init segment's trex default sample duration differs from the tfhd default; trun carries no durations
 		{Name: "x_video_trex_vs_tfhd", VideoTS: 90000, FrameDur: 3000, SegFrames: []int{60, 60}, AudioSegs: []int{94, 94}, VideoTrexDur: 2002},
 		// two video representations with different segment grids (4 x 2 s and 1 x 8 s), $Time$ addressed
+		// the last segment starts 1 ms later than the sample durations of the one before say (whole-ms total)
+		{Name: "x_shift_last_boundary", VideoTS: 90000, FrameDur: 3000, SegFrames: []int{60, 60, 60, 60}, AudioSegs: []int{94, 94, 94, 93}, LastTfdtJump: 90},
+		// 8 thumbnails of 1 s next to 4 video segments of 2 s; MPD order audio, video, image, text
+		{Name: "x_thumbs_1s_before_text", VideoTS: 90000, FrameDur: 3000, SegFrames: []int{60, 60, 60, 60}, AudioSegs: []int{94, 94, 94, 93}, Text: true, Thumbs: 8, ImageBeforeTxt: true},
+		// 2 thumbnails of 4 s for 4 x 2 s video
+		{Name: "x_thumbs_4s", VideoTS: 90000, FrameDur: 3000, SegFrames: []int{60, 60, 60, 60}, Thumbs: 2},
+		// subtitle track whose last segment is 0.5 s shorter than the video's
+		{Name: "x_text_short_last", VideoTS: 90000, FrameDur: 3000, SegFrames: []int{60, 60, 60, 60}, Text: true, TextLastShort: 500},
+		// variable frame rate: frames of 2000 and 4000 ticks alternate (same average and segment durations as 30 fps)
+		{Name: "x_vfr_2000_4000", VideoTS: 90000, FrameDur: 3000, FrameDurs: []uint32{2000, 4000}, SegFrames: []int{60, 60, 60, 60}, AudioSegs: []int{94, 94, 94, 93}},
+		// subtitle segments that signal their sample size in tfhd and in trun
+		{Name: "x_text_both_sizes", VideoTS: 90000, FrameDur: 3000, SegFrames: []int{60, 60, 60, 60}, Text: true, TextBothSizes: true},
 		{Name: "x_two_video_grids", VideoTS: 90000, FrameDur: 3000, SegFrames: []int{60, 60, 60, 60}, ExtraVideo: "V8s", ExtraSegFrames: []int{240}, ExtraOwnAS: true, UseTime: true},
 	}
 }
